@@ -176,7 +176,7 @@ func checkC07(c *Ctx) {
 			c.Fatal("bad GenFmt line")
 			return
 		}
-		if len(toks) == maxToks && every4 > 1 && (int64(li)+c.Seed)%int64(every4) != 0 {
+		if len(toks) == maxToks && !sampled(li, c.Seed, every4) {
 			continue
 		}
 		for max := 3; max <= 6; max++ {
